@@ -1,4 +1,5 @@
 import OxiddModel.Circuit.LemmasEval
+import OxiddModel.Circuit.LemmasTotal
 
 /-!
 # C18 — `Circuit::simplify`: headline theorems
@@ -20,16 +21,6 @@ defect the negation of the full statement for `Cfg.repo` is proved by a concrete
 of `Literal::UNDEF`); the Rust type cannot even express larger circuits.
 -/
 namespace OxiddModel.Circuit
-
-/-- gates reachable from the roots -/
-inductive Reach (c : Circuit) (roots : List Lit) : Nat → Prop
-  | root {neg g} : Lit.gate neg g ∈ roots → Reach c roots g
-  | step {g neg i} : Reach c roots g → Lit.gate neg i ∈ (c.gates.getD g (.and, [])).2 → Reach c roots i
-
-/-- `g` depends on `i` through one or more gate inputs -/
-inductive Reaches (c : Circuit) : Nat → Nat → Prop
-  | edge {g neg i} : Lit.gate neg i ∈ (c.gates.getD g (.and, [])).2 → Reaches c g i
-  | trans {g h i} : Reaches c g h → Reaches c h i → Reaches c g i
 
 /-- `Literal::apply_gate_map` -/
 def applyMap (m : Array Lit) (l : Lit) : Lit := mapLit m l
@@ -347,5 +338,127 @@ theorem simplify_unknown_partial {c c' : Circuit} {roots : List Lit} {m : Array 
 /-- the repaired model reports the unknown input -/
 example : simplify Cfg.fixed ⟨1, #[(.and, [.input false 0, .input false 1])]⟩ [.gate false 0]
     = .error (.input (.input false 1)) := by rfl
+
+/-- **simplify_cycle (⇒), soundness of the reported gate.**  `Err(g)` for a gate `g` means that
+`g` is reachable from the roots and depends on itself. -/
+theorem simplify_cycle_sound {cfg : Cfg} {c : Circuit} {roots : List Lit} (hs : Small c) {e : Nat}
+    (h : simplify cfg c roots = .error (.cycle e)) : Reach c roots e ∧ Reaches c e e := by
+  unfold simplify at h
+  cases hv : visitRoots cfg c (initState c) roots with
+  | ok st => simp [hv] at h
+  | error x =>
+    simp only [hv, Except.error.injEq] at h
+    subst h
+    refine visitRoots_cycle hs roots _ e (initState_wf cfg c) (fun r hr => hr) ?_ hv
+    intro d hd
+    rw [initState_getD] at hd
+    simp [Lit.undef, Lit.discovered] at hd
+
+/-- soundness of the reported literal: `Err(l)` for a non-gate `l` means that `l` fails the
+input check (`l` is an input `≥ inputs.len()` for the repaired bound) -/
+theorem simplify_err_input_sound {cfg : Cfg} {c : Circuit} {roots : List Lit} {l : Lit}
+    (h : simplify cfg c roots = .error (.input l)) :
+    unknownInput cfg c.gates.size c.ninputs l = true := by
+  unfold simplify at h
+  cases hv : visitRoots cfg c (initState c) roots with
+  | ok st => simp [hv] at h
+  | error x =>
+    simp only [hv, Except.error.injEq] at h
+    subst h
+    exact visitRoots_err_input roots _ l hv
+
+/-- **termination without fuel exhaustion**: the recursion depth bound `G + 1` the model uses is
+sufficient -/
+theorem simplify_fuel_sufficient {cfg : Cfg} {c : Circuit} {roots : List Lit} (hs : Small c) :
+    simplify cfg c roots ≠ .error .fuel := by
+  unfold simplify
+  cases hv : visitRoots cfg c (initState c) roots with
+  | ok st => simp
+  | error x =>
+    simp only [ne_eq, Except.error.injEq]
+    intro hx
+    exact visitRoots_not_fuel hs roots _ (initState_wf cfg c) (hx ▸ hv)
+
+theorem Good.reaches {c : Circuit} (_hg : Good c) {rank : Nat → Nat}
+    (hr : ∀ g, g < c.gates.size → ∀ neg i, Lit.gate neg i ∈ (c.gates.getD g (.and, [])).2 →
+      i < c.gates.size ∧ rank i < rank g) {a b : Nat} (hab : Reaches c a b) :
+    a < c.gates.size → b < c.gates.size ∧ rank b < rank a := by
+  induction hab with
+  | edge he => intro ha; exact hr _ ha _ _ he
+  | trans _ _ ih1 ih2 =>
+    intro ha
+    obtain ⟨hb, h1⟩ := ih1 ha
+    obtain ⟨hc, h2⟩ := ih2 hb
+    exact ⟨hc, by omega⟩
+
+/-- **simplify_total: no `Err` (and no panic) on acyclic, well-scoped input.**  If all gate
+references name existing gates, the circuit is acyclic, all input literals name known inputs, and
+the roots are in range, then `simplify` succeeds.  This holds for the code as it is, too. -/
+theorem simplify_total {cfg : Cfg} {c : Circuit} {roots : List Lit} (hs : Small c) (hgood : Good c)
+    (hroots : ∀ neg g, Lit.gate neg g ∈ roots → g < c.gates.size)
+    (hrin : cfg.bound = true → ∀ n i, Lit.input n i ∈ roots → i < c.ninputs) :
+    ∃ c' m, simplify cfg c roots = .ok (c', m) := by
+  cases hres : simplify cfg c roots with
+  | ok p => exact ⟨p.1, p.2, rfl⟩
+  | error e =>
+    exfalso
+    cases e with
+    | fuel => exact simplify_fuel_sufficient hs hres
+    | cycle g =>
+      obtain ⟨hreach, hcyc⟩ := simplify_cycle_sound hs hres
+      obtain ⟨rank, hr⟩ := hgood.acyclic
+      have hlt : g < c.gates.size := by
+        clear hcyc hres
+        induction hreach with
+        | root h => exact hroots _ _ h
+        | step _ he ih => exact (hr _ ih _ _ he).1
+      have := (hgood.reaches hr hcyc hlt).2
+      omega
+    | input l =>
+      unfold simplify at hres
+      cases hv : visitRoots cfg c (initState c) roots with
+      | ok st => simp [hv] at hres
+      | error x =>
+        simp only [hv, Except.error.injEq] at hres
+        subst hres
+        exact visitRoots_total hs hgood roots _ (initState_wf cfg c)
+          (fun g hg => absurd hg (initState_not_done c g)) hroots hrin _ hv (by simp [BadErr])
+    | panicIndex =>
+      unfold simplify at hres
+      cases hv : visitRoots cfg c (initState c) roots with
+      | ok st => simp [hv] at hres
+      | error x =>
+        simp only [hv, Except.error.injEq] at hres
+        subst hres
+        exact visitRoots_total hs hgood roots _ (initState_wf cfg c)
+          (fun g hg => absurd hg (initState_not_done c g)) hroots hrin _ hv (by simp [BadErr])
+    | panicBitset =>
+      unfold simplify at hres
+      cases hv : visitRoots cfg c (initState c) roots with
+      | ok st => simp [hv] at hres
+      | error x =>
+        simp only [hv, Except.error.injEq] at hres
+        subst hres
+        exact visitRoots_total hs hgood roots _ (initState_wf cfg c)
+          (fun g hg => absurd hg (initState_not_done c g)) hroots hrin _ hv (by simp [BadErr])
+
+/-- non-vacuity of `simplify_total`: the documented example is a good circuit -/
+example : Good ⟨3, #[(.xor, [.input true 0, .input false 1, .input false 2]), (.and, [.gate false 0])]⟩ := by
+  refine ⟨⟨fun g => g, ?_⟩, ?_⟩
+  · intro g hg neg i hi
+    have hg2 : g < 2 := hg
+    match g, hg2 with
+    | 0, _ => simp at hi
+    | 1, _ =>
+      simp at hi
+      exact ⟨by rw [hi.2]; decide, by rw [hi.2]; decide⟩
+  · intro g hg n i hi
+    have hg2 : g < 2 := hg
+    match g, hg2 with
+    | 0, _ =>
+      simp at hi
+      show i < 3
+      omega
+    | 1, _ => simp at hi
 
 end OxiddModel.Circuit
